@@ -4,7 +4,7 @@
 set -u
 cm=$1; shift
 [ -z "$(git -C /repo status --porcelain --untracked-files=no)" ] || { echo "repo not clean"; exit 2; }
-git -C /repo show "$cm" -- . ':!*_test.go' | git -C /repo apply -R || { echo "cannot revert $cm"; exit 2; }
+(git -C /repo show "$cm" -- . ':!*_test.go' | git -C /repo apply -R 2>/dev/null) || (git -C /repo show -U0 "$cm" -- . ':!*_test.go' | git -C /repo apply -R --unidiff-zero) || { echo "cannot revert $cm"; exit 2; }
 trap 'git -C /repo checkout -q -- .' EXIT
 for p in "$@"; do
   out=$(cd /verif && ./check $p quick 2>&1); rc=$?
